@@ -1,4 +1,5 @@
 import CoreBGP.Model.Bitmap
+import CoreBGP.Lemmas.Bitmap
 /-!
 # C16 (bitmap clause) — `attrsBitmap` is a set of `uint8`
 
@@ -6,19 +7,40 @@ So "second and later occurrences of an attribute type are not passed on" really 
 code: no two distinct codes share a bit, and a bit once set stays set.
 -/
 namespace CoreBGP.Props.C16B
-open CoreBGP CoreBGP.Model
+open CoreBGP CoreBGP.Model CoreBGP.Lemmas.Bitmap
 
 theorem empty_isSet (c : UInt8) : Bitmap.empty.isSet c = false := by
-  sorry
+  simp [Bitmap.isSet, Bitmap.empty]
 
 /-- setting `b` makes exactly `b` a member and changes nothing else -/
 theorem isSet_set (a : Bitmap) (b c : UInt8) : (a.set b).isSet c = (b == c || a.isSet c) := by
-  sorry
+  unfold Bitmap.isSet Bitmap.set
+  simp only
+  by_cases hw : wordIdx c = wordIdx b
+  · rw [if_pos hw, and_mask, and_mask, or_mask_testBit]
+    congr 1
+    by_cases hbc : b = c
+    · subst hbc; simp
+    · have : b.toNat % 32 ≠ c.toNat % 32 := fun h => hbc (eq_of_wordIdx_mod b c hw.symm h)
+      simp [this, hbc]
+  · rw [if_neg hw]
+    have : b ≠ c := fun h => hw (by rw [h])
+    simp [this]
+
+/-- generalisation of `isSet_foldl` to an arbitrary starting bitmap -/
+theorem isSet_foldl_gen (l : List UInt8) (a : Bitmap) (c : UInt8) :
+    (l.foldl Bitmap.set a).isSet c = (l.contains c || a.isSet c) := by
+  induction l generalizing a with
+  | nil => simp
+  | cons x xs ih =>
+    rw [List.foldl_cons, ih, isSet_set, List.contains_cons]
+    rw [BEq.comm (a := c) (b := x)]
+    cases xs.contains c <;> cases a.isSet c <;> cases (x == c) <;> rfl
 
 /-- hence after any sequence of `set`s the bitmap answers exactly list membership: the abstraction
 `PAState.seen : List UInt8` used by `Model.pathAttrsLoop` is faithful -/
 theorem isSet_foldl (l : List UInt8) (c : UInt8) : (l.foldl Bitmap.set Bitmap.empty).isSet c = l.contains c := by
-  sorry
+  rw [isSet_foldl_gen, empty_isSet, Bool.or_false]
 
 example : ((Bitmap.empty.set 32).set 14).isSet 32 = true ∧ ((Bitmap.empty.set 32).set 14).isSet 0 = false := by decide
 
